@@ -707,6 +707,37 @@ func (e *Engine) specCall(cur, old *State, n SCall, env *SpecEnv) Val {
 			return boolVal("(fp.isNaN " + arg(0).T + ")")
 		case "isInf":
 			return boolVal("(fp.isInfinite " + arg(0).T + ")")
+		case "uf", "ufb": // uninterpreted function application: uf("name", args...) / ufb (boolean)
+			if sl, ok := n.Args[0].(SLit); ok {
+				var ts, srts []string
+				for i := 1; i < len(n.Args); i++ {
+					a := arg(i)
+					if a.Ty == nil && a.K == KInt {
+						a = e.coerceTo(a, types.Typ[types.Int])
+					}
+					for k, c := range a.comps() {
+						ts = append(ts, c)
+						if a.Ty != nil && k < len(leaves(a.Ty)) {
+							srts = append(srts, leaves(a.Ty)[k].Sort)
+						} else {
+							srts = append(srts, "Int")
+						}
+					}
+				}
+				ret := "Int"
+				if id.Name == "ufb" {
+					ret = "Bool"
+				}
+				fn := sym("uf." + sl.Val + "/" + strings.Join(srts, ","))
+				e.declFun(fn, "("+strings.Join(srts, " ")+") "+ret)
+				t := "(" + fn + " " + strings.Join(ts, " ") + ")"
+				if id.Name == "ufb" {
+					return boolVal(t)
+				}
+				return Val{K: KStr, Ty: types.Typ[types.String], T: t}
+			}
+			e.specErr("uf(\"name\", args...)")
+			return boolVal("false")
 		case "before": // before(ghostGlobal, key): value in the entry state, key evaluated now
 			if id, ok := n.Args[0].(SIdent); ok {
 				if g := e.P.ghostGlobal(id.Name); g != nil {
